@@ -89,8 +89,10 @@ def recording_lbp(log, order=None):
 
 
 def empty_rows(node, conn, req):
-    """answer any SELECT with an empty result of no columns (schema queries)"""
-    node.reply(conn, req, "RESULT", wire.result_rows([], [], ks="system_schema", table="x", version=req["version"]))
+    """answer any SELECT with an empty result (schema queries).  One column: a ROWS result with zero columns is not
+    something a server sends (and the driver's decoder does not accept it)"""
+    node.reply(conn, req, "RESULT", wire.result_rows([("keyspace_name", "text")], [], ks="system_schema", table="x",
+                                                     version=req["version"]))
 
 
 # ------------------------------------------------------------------ protocol v1/v2 result rows
